@@ -843,6 +843,10 @@ pub enum FileExpect {
     Changed(Vec<u8>),
     /// its own configuration lookup fails: untouched, the run aborts with status 2
     ConfigError(String),
+    /// the write of the new contents failed part-way (an injected error on the data write): an
+    /// in-place writer cannot keep the file whole then, so its bytes are not constrained — but
+    /// the failure must be reported (status 2)
+    WriteFailed,
 }
 
 #[derive(Clone, Debug, Default)]
@@ -996,6 +1000,11 @@ pub fn expected(world: &World, opts: &Opts, stdin: Option<&[u8]>, faults: &[simp
                         }
                     }
                     if let FileExpect::Changed(_) = fe {
+                        if !opts.check && fault_on(faults, "fs.write.data", &f).is_some() {
+                            fe = FileExpect::WriteFailed;
+                        }
+                    }
+                    if let FileExpect::Changed(_) = fe {
                         let no_write_perm = world.mode_of(&real).map(|m| m & 0o002 == 0).unwrap_or(false);
                         if !opts.check
                             && (fault_on(faults, "fs.write.open", &f).is_some() || fault_on(faults, "fs.rename", &f).is_some() || no_write_perm)
@@ -1008,7 +1017,7 @@ pub fn expected(world: &World, opts: &Opts, stdin: Option<&[u8]>, faults: &[simp
             }
         };
         match &fe {
-            FileExpect::Fail(_) | FileExpect::ConfigError(_) => status = 2,
+            FileExpect::Fail(_) | FileExpect::ConfigError(_) | FileExpect::WriteFailed => status = 2,
             FileExpect::Changed(_) if opts.check => {
                 ex.differing.insert(f.clone());
                 if status < 1 {
@@ -1058,7 +1067,7 @@ pub fn expected(world: &World, opts: &Opts, stdin: Option<&[u8]>, faults: &[simp
             }
         };
         match &fe {
-            FileExpect::Fail(_) | FileExpect::ConfigError(_) => {
+            FileExpect::Fail(_) | FileExpect::ConfigError(_) | FileExpect::WriteFailed => {
                 status = 2;
                 ex.stdin_stdout = None;
             }
